@@ -59,6 +59,10 @@ pub fn alphabet() -> Alphabet {
         il::Operation::nop(),
         il::Operation::intrinsic(il::Intrinsic::new("rdx", "rdx", vec![], Some(vec![ex()]), Some(vec![ey()]), vec![0x90])),
         il::Operation::intrinsic(il::Intrinsic::new("unk", "unk", vec![], None, None, vec![0x90])),
+        // an intrinsic that declares TWO written scalars (a later write to one of them must not hide it as the last
+        // writer of the other), and a load whose address mentions its own destination (pointer chasing)
+        il::Operation::intrinsic(il::Intrinsic::new("rdxy", "rdxy", vec![], Some(vec![ex(), ey()]), Some(vec![]), vec![0x91])),
+        il::Operation::load(x(), E::add(il::expr_const(0x10, 64), E::zext(64, ex()).unwrap()).unwrap()),
     ];
     let guards = vec![(E::cmpeq(ex(), c(0)).unwrap(), E::cmpneq(ex(), c(0)).unwrap())];
     Alphabet { ops, guards, guards3: vec![] }
@@ -127,6 +131,9 @@ pub fn inits() -> Vec<RState> {
             r.set("x", Val::new(x, 8));
             r.set("y", Val::new(y, 8));
             r.mem.insert(0x10, 2);
+            r.mem.insert(0x11, 3);
+            r.mem.insert(0x12, 0);
+            r.mem.insert(0x13, 1);
             v.push(r);
         }
     }
